@@ -347,7 +347,9 @@ func main() {
 		Run:        run,
 		Replay:     replay,
 		WorkerInit: selfTest,
-		Required:   func(string) []string { return []string{"kind:year", "kind:month", "kind:day", "leap-day", "pairs", "minmax"} },
+		Required: func(string) []string {
+			return []string{"kind:year", "kind:month", "kind:day", "leap-day", "pairs", "minmax"}
+		},
 		Deadline: func(tier string) time.Duration {
 			if tier == "thorough" {
 				return 40 * time.Minute
